@@ -32,7 +32,8 @@ impl Prop for WellFormed {
         "wellformed"
     }
     fn rule() -> &'static str {
-        "proptest: as C01 but n>=0; the bytes left in the destination after drop / finalize+drop / write_shapes must be accepted by \
+        "proptest: as C01 but n>=0; the bytes left in the destination after drop / finalize+drop / write_shapes — with finalize() also called at generated \
+         positions in the middle and shapes of another type offered (and rejected) at generated positions — must be accepted by \
          the strict independent decoder (header code, zero words, length == real length, version, type; records 1..n gap-free, \
          content length == real length, type code, per-type layout, ascending part offsets from 0, patch kinds, little-endian) and \
          decode to exactly the accessor view of the shapes handed in (bit patterns, M as given). With and without shx destination. \
@@ -123,9 +124,8 @@ fn wellformed_k<K: Kind>(c: &FileCase, ctx: &mut Ctx) -> Result<(), Fail> {
     }
     let shapes: Vec<K> = build_all(&c.geoms, c.ctor);
     let written: Vec<Geom> = views(&shapes).iter().map(file_view).collect();
-    let mut first: Option<Vec<u8>> = None;
     for with_shx in [true, false] {
-        let (shp, _shx) = match write_bytes_fins(&shapes, with_shx, c.fin, c.mid_fins) {
+        let (shp, _shx) = match write_bytes_hist(&shapes, with_shx, c.fin, c.mid_fins, c.rejects) {
             Ok(x) => x,
             Err(e) => fail!("write-error", "{}", e),
         };
@@ -159,10 +159,6 @@ fn wellformed_k<K: Kind>(c: &FileCase, ctx: &mut Ctx) -> Result<(), Fail> {
                 r.content_len,
                 announced
             );
-        }
-        match &first {
-            None => first = Some(shp),
-            Some(f) => ensure!(*f == shp, "shx-changes-shp", ".shp bytes differ with and without an index destination"),
         }
     }
     Ok(())
@@ -244,7 +240,7 @@ fn index_k<K: Kind>(c: &FileCase, ctx: &mut Ctx) -> Result<(), Fail> {
         ensure!(r.shape_count().ok() == Some(n), "shape-count", "from_path reader reports {:?} shapes, {} written", r.shape_count().ok(), n);
         (a, b)
     } else {
-        match write_bytes_fins(&shapes, true, c.fin, c.mid_fins) {
+        match write_bytes_hist(&shapes, true, c.fin, c.mid_fins, c.rejects) {
             Ok((a, b)) => (a, b.unwrap()),
             Err(e) => fail!("write-error", "{}", e),
         }
